@@ -1,3 +1,195 @@
-// Reference oracles for the /verif checks. Independent of whatshap's sources.
+// Brute-force reference oracles for the /verif checks.  Independent of whatshap's sources:
+// nothing from /repo is included or linked.  Loaded with ctypes (see mc/oracle.py).
 #include <cstdint>
-extern "C" int oracle_version() { return 1; }
+#include <cstring>
+#include <vector>
+#include <algorithm>
+#include <cmath>
+
+extern "C" int oracle_version() { return 3; }
+
+// ---------------------------------------------------------------------------------------
+// (Ped)MEC objective
+//
+// individuals 0..n_ind-1; trios[i] = (father, mother, child); founders own two haplotypes,
+// a child's haplotype 0 is a copy of one paternal haplotype, its haplotype 1 a copy of one
+// maternal haplotype, selected by the transmission value t (two bits per trio).
+// conv selects how the two bits are read (the objective's minimum does not depend on it,
+// only the evaluation of a returned witness does):
+//   bit (2i + (conv&1 ? 1 : 0))  belongs to the father, the other one to the mother
+//   conv&2 == 0: bit value 1 selects parental haplotype 0 ; conv&2 != 0: bit value 1 selects haplotype 1
+// ---------------------------------------------------------------------------------------
+static const int64_t INF = (int64_t)1 << 60;
+
+struct PedInst {
+    int n_ind, n_trios;
+    const int* trios;    // n_trios*3
+    int R, C;
+    const int* read_ind; // R
+    const int* allele;   // R*C : -1 blank, 0, 1
+    const int* weight;   // R*C
+    const int* active;   // R*C : 1 if the read spans column c (between first and last entry)
+    int distrust;
+    const int* gt;       // n_ind*C : genotype index 0,1,2 (trusted mode)
+    const int* gl;       // n_ind*C*3 : phred cost of genotype index (distrust mode)
+    const int* rc;       // C
+    int conv;
+};
+
+static void hap_partitions(const PedInst& I, int t, int out[][2]) {
+    // founder haplotype slots
+    int is_child[8] = {0};
+    for (int i = 0; i < I.n_trios; ++i) is_child[I.trios[3 * i + 2]] = 1;
+    int p = 0;
+    for (int i = 0; i < I.n_ind; ++i) {
+        out[i][0] = out[i][1] = -1;
+        if (!is_child[i]) { out[i][0] = p; out[i][1] = p + 1; p += 2; }
+    }
+    // resolve children (parents may themselves be children: iterate to a fixed point)
+    for (int round = 0; round < I.n_ind; ++round) {
+        for (int i = 0; i < I.n_trios; ++i) {
+            int f = I.trios[3 * i], m = I.trios[3 * i + 1], c = I.trios[3 * i + 2];
+            if (out[c][0] != -1 || out[f][0] == -1 || out[m][0] == -1) continue;
+            int fb = (t >> (2 * i + ((I.conv & 1) ? 1 : 0))) & 1;
+            int mb = (t >> (2 * i + ((I.conv & 1) ? 0 : 1))) & 1;
+            int fh = (I.conv & 2) ? fb : !fb;
+            int mh = (I.conv & 2) ? mb : !mb;
+            out[c][0] = out[f][fh];
+            out[c][1] = out[m][mh];
+        }
+    }
+}
+
+// cost of column c for bipartition `part` (bit r = haplotype of read r within its individual)
+// and transmission value t; masks[i*2+h] gets a bit mask of the alleles (1: allele 0, 2: allele 1)
+// that haplotype h of individual i carries in the cost-optimal admissible assignments.
+static int64_t col_cost(const PedInst& I, unsigned part, int c, int t, int* masks) {
+    int hp[8][2];
+    hap_partitions(I, t, hp);
+    int P = 2 * (I.n_ind - I.n_trios);
+    int64_t mism[8][2];
+    for (int p = 0; p < P; ++p) mism[p][0] = mism[p][1] = 0;
+    for (int r = 0; r < I.R; ++r) {
+        int a = I.allele[r * I.C + c];
+        if (a < 0) continue;
+        int h = (part >> r) & 1;
+        int p = hp[I.read_ind[r]][h];
+        // placing allele x on this haplotype costs the weight of every entry != x
+        mism[p][1 - a] += I.weight[r * I.C + c];
+    }
+    int64_t best = INF;
+    if (masks) for (int k = 0; k < 2 * I.n_ind; ++k) masks[k] = 0;
+    for (int pass = 0; pass < (masks ? 2 : 1); ++pass) {
+        for (int asg = 0; asg < (1 << P); ++asg) {
+            int64_t cost = 0;
+            bool ok = true;
+            for (int i = 0; i < I.n_ind && ok; ++i) {
+                int a0 = (asg >> hp[i][0]) & 1, a1 = (asg >> hp[i][1]) & 1;
+                int g = a0 + a1;
+                if (I.distrust) cost += I.gl[(i * I.C + c) * 3 + g];
+                else if (g != I.gt[i * I.C + c]) ok = false;
+            }
+            if (!ok) continue;
+            for (int p = 0; p < P; ++p) cost += mism[p][(asg >> p) & 1];
+            if (pass == 0) { if (cost < best) best = cost; }
+            else if (cost == best) {
+                for (int i = 0; i < I.n_ind; ++i)
+                    for (int h = 0; h < 2; ++h) masks[i * 2 + h] |= 1 << ((asg >> hp[i][h]) & 1);
+            }
+        }
+    }
+    return best;
+}
+
+static int popcnt(unsigned x) { int n = 0; for (; x; x >>= 1) n += x & 1; return n; }
+
+static PedInst mk(int n_ind, int n_trios, const int* trios, int R, int C, const int* read_ind,
+                  const int* allele, const int* weight, const int* active, int distrust, const int* gt,
+                  const int* gl, const int* rc, int conv) {
+    PedInst I{n_ind, n_trios, trios, R, C, read_ind, allele, weight, active, distrust, gt, gl, rc, conv};
+    return I;
+}
+
+extern "C" {
+
+// global minimum over all bipartitions and transmission paths.
+// mode 0: explicit enumeration of every transmission path; mode 1: Viterbi over columns.
+// returns -1 if no admissible solution exists.
+int64_t pedmec_min(int n_ind, int n_trios, const int* trios, int R, int C, const int* read_ind,
+                   const int* allele, const int* weight, const int* active, int distrust, const int* gt,
+                   const int* gl, const int* rc, int mode) {
+    PedInst I = mk(n_ind, n_trios, trios, R, C, read_ind, allele, weight, active, distrust, gt, gl, rc, 0);
+    int T = 1 << (2 * n_trios);
+    int64_t best = INF;
+    std::vector<int64_t> cc((size_t)C * T);
+    for (unsigned part = 0; part < (1u << R); ++part) {
+        for (int c = 0; c < C; ++c)
+            for (int t = 0; t < T; ++t) cc[(size_t)c * T + t] = col_cost(I, part, c, t, nullptr);
+        if (C == 0) { best = 0; break; }
+        if (mode == 1) {
+            std::vector<int64_t> cur(T), nxt(T);
+            for (int t = 0; t < T; ++t) cur[t] = cc[t];
+            for (int c = 1; c < C; ++c) {
+                for (int t = 0; t < T; ++t) {
+                    int64_t m = INF;
+                    if (cc[(size_t)c * T + t] < INF)
+                        for (int s = 0; s < T; ++s)
+                            if (cur[s] < INF) m = std::min(m, cur[s] + (int64_t)popcnt(s ^ t) * rc[c] + cc[(size_t)c * T + t]);
+                    nxt[t] = m;
+                }
+                cur.swap(nxt);
+            }
+            for (int t = 0; t < T; ++t) best = std::min(best, cur[t]);
+        } else {
+            // odometer over all T^C paths
+            std::vector<int> path(C, 0);
+            while (true) {
+                int64_t cost = 0;
+                for (int c = 0; c < C && cost < INF; ++c) {
+                    int64_t x = cc[(size_t)c * T + path[c]];
+                    if (x >= INF) { cost = INF; break; }
+                    cost += x;
+                    if (c > 0) cost += (int64_t)popcnt(path[c] ^ path[c - 1]) * rc[c];
+                }
+                best = std::min(best, cost);
+                int k = 0;
+                while (k < C && ++path[k] == T) { path[k] = 0; ++k; }
+                if (k == C) break;
+            }
+        }
+    }
+    return best >= INF ? -1 : best;
+}
+
+// cost of a given witness (bipartition as bit mask over reads, transmission value per column)
+// under convention conv; masks_out (C * n_ind * 2) receives the optimal-allele masks per column.
+// returns -1 if the witness is inadmissible.
+int64_t pedmec_eval(int n_ind, int n_trios, const int* trios, int R, int C, const int* read_ind,
+                    const int* allele, const int* weight, const int* active, int distrust, const int* gt,
+                    const int* gl, const int* rc, int conv, unsigned part, const int* tvec, int* masks_out) {
+    PedInst I = mk(n_ind, n_trios, trios, R, C, read_ind, allele, weight, active, distrust, gt, gl, rc, conv);
+    int64_t cost = 0;
+    for (int c = 0; c < C; ++c) {
+        int64_t x = col_cost(I, part, c, tvec[c], masks_out ? masks_out + (size_t)c * n_ind * 2 : nullptr);
+        if (x >= INF) return -1;
+        cost += x;
+        if (c > 0) cost += (int64_t)popcnt((unsigned)(tvec[c] ^ tvec[c - 1])) * rc[c];
+    }
+    return cost;
+}
+
+// plain full-matrix Levenshtein distance
+int levenshtein(const char* s, int m, const char* t, int n) {
+    std::vector<int> d((size_t)(m + 1) * (n + 1));
+    for (int i = 0; i <= m; ++i) d[(size_t)i * (n + 1)] = i;
+    for (int j = 0; j <= n; ++j) d[j] = j;
+    for (int i = 1; i <= m; ++i)
+        for (int j = 1; j <= n; ++j) {
+            int a = d[(size_t)(i - 1) * (n + 1) + j] + 1, b = d[(size_t)i * (n + 1) + j - 1] + 1,
+                c = d[(size_t)(i - 1) * (n + 1) + j - 1] + (s[i - 1] != t[j - 1]);
+            d[(size_t)i * (n + 1) + j] = std::min(a, std::min(b, c));
+        }
+    return d[(size_t)m * (n + 1) + n];
+}
+
+}  // extern "C"
